@@ -149,8 +149,10 @@ SRC_TIE = {
     'C10': {'Reader': ['VbsReader.__next__']},
     'C04': {'Block': ['Block1014.write', 'Block1014.finalise']},
     'C05': {'Unblock': ['Unblock1014.read', 'Block1014.write', 'Block1014.finalise']},
+    'C01': {'Bits': ['BitArray.tolist', 'BitArray.fromlist']},
+    'C02': {'Bits': ['BitArray.tolist', 'BitArray.fromlist']},
     'C07': {'Pds': ['_pds_to_dict', '_icc_to_dict', '_pds_to_de']},
-    'C08': {'Pds': ['_pds_to_dict', '_icc_to_dict', '_pds_to_de']},
+    'C08': {'Pds': ['_pds_to_dict', '_icc_to_dict', '_pds_to_de'], 'Bits': ['BitArray.tolist', 'BitArray.fromlist']},
     'C12': {'Pds': ['_pds_to_dict', '_icc_to_dict', '_pds_to_de']},
     'C13': {'Pin': ['Iso0PinBlock.to_bytes', 'Iso0PinBlock.from_bytes', 'Iso4PinBlock.to_bytes', 'Iso4PinBlock.from_bytes']},
     'C14': {'Misc': ['_get_tsp', '_pan_prefix'],
